@@ -1,0 +1,21 @@
+//! Verification hook: an in-process tap on outgoing messages (feature `hotstuff_verif`).
+use bytes::Bytes;
+use std::cell::RefCell;
+use std::net::SocketAddr;
+
+thread_local! {
+    static TAP: RefCell<Option<Vec<(bool, SocketAddr, Bytes)>>> = RefCell::new(None);
+}
+
+/// Start capturing: every message handed to a sender on this thread is recorded and not sent.
+pub fn tap_start() { TAP.with(|t| *t.borrow_mut() = Some(Vec::new())); }
+/// Take what has been captured so far: (reliable?, destination, bytes).
+pub fn tap_drain() -> Vec<(bool, SocketAddr, Bytes)> {
+    TAP.with(|t| t.borrow_mut().as_mut().map(|v| std::mem::take(v)).unwrap_or_default())
+}
+pub(crate) fn capture(reliable: bool, address: SocketAddr, data: &Bytes) -> bool {
+    TAP.with(|t| match t.borrow_mut().as_mut() {
+        Some(v) => { v.push((reliable, address, data.clone())); true }
+        None => false,
+    })
+}
